@@ -428,3 +428,26 @@ package stdlib
 //@   ensures[C13] fails: (= (not (= result.1 nil.Any)) (or (not (= (bf.acc64 (bf_of k)) 0)) (< sz 0)))
 //@   ensures[C13] empty: (=> (and (= result.1 nil.Any) (= n 0)) (and (= (vty r) (ty_list (vty c))) (kn r) (is_seq_payload r) (= (Slice.len (pl_seq r)) 0)))
 //@   ensures[C13] whole: (=> (and (= result.1 nil.Any) (> n 0) (= sz 0)) (and (is_list_ty (vty r)) (kn r) (is_seq_payload r) (= (Slice.len (pl_seq r)) 1) (= (pl_seq_at r 0) (cty.Value.v c)) (= (elem_ty (vty r)) (vty c))))
+
+// flatten (C11): the helper that both callbacks use never panics when it is given a known, non-null
+// sequence (marked or not, with unknown or null members at any depth); its recursion descends only into
+// known, non-null sequences - an unknown tuple has a known length, so the length test alone would let
+// it reach the element iterator.
+//@ func stdlib.flattener
+//@   tags C11
+//@   let t (vty flattenList)
+//@   requires (and (wf_deep flattenList) (is_known flattenList) (not (is_null flattenList)) (or (is_list_ty t) (is_set_ty t) (is_tuple_ty t) (is_map_ty t) (is_obj_ty t)))
+//@   ensures[C11] shape: (and (slice.ok result.0) (slice.ok result.1))
+//
+// The Type callback accepts a known argument only if it can be iterated (a wholly known one only if it is a
+// list, set or tuple; a known map or object with unknown members slips through the wholly-known test and is
+// answered with the dynamic type); the Impl callback relies on exactly that (its `requires`).
+//@ func stdlib.FlattenFunc.Type
+//@   tags C11
+//@   spec_args stdlib.FlattenFunc
+//@   let a0 (val_at args 0)
+//@   ensures[C11] accepts: (=> (and (= result.1 nil.Any) (is_known a0) (not (is_null a0))) (or (is_list_ty (vty a0)) (is_set_ty (vty a0)) (is_tuple_ty (vty a0)) (is_map_ty (vty a0)) (is_obj_ty (vty a0))))
+//
+// (The Impl callback is not under contract: its WithMarks calls need a bound on the number of mark sets that
+// flattener's result does not have; its call of flattener is covered by the same argument as the Type
+// callback's: the argument is known, non-null and iterable.)
